@@ -21,17 +21,37 @@ ALPHA_ONE = "ABCXYZabz"
 
 
 class _Atoms:
-    def __init__(self, rows):
+    """stand-in for the pdbx DataCategory `atom_site`: the item-name interface (get_value) and the positional one
+    (attribute_list, get_attribute_index, row_list) over the same rows; `order` permutes the columns (mmCIF does not fix
+    the order of the items of a loop)"""
+
+    def __init__(self, rows, order=None):
         self.rows = rows
         self.row_count = len(rows)
+        names = list(rows[0].keys()) if rows else []
+        if order == "reversed":
+            names = names[::-1]
+        elif order == "rotated":
+            names = names[5:] + names[:5]
+        self.attribute_list = names
+        self.row_list = [[r[n] for n in names] for r in rows]
 
     def get_value(self, item, i):
         return self.rows[i][item]
 
+    def get_attribute_index(self, name):
+        return self.attribute_list.index(name) if name in self.attribute_list else -1
+
+    def has_attribute(self, name):
+        return name in self.attribute_list
+
+    def get_attribute_list(self):
+        return list(self.attribute_list)
+
 
 class _Block:
-    def __init__(self, rows):
-        self.atoms = _Atoms(rows)
+    def __init__(self, rows, order=None):
+        self.atoms = _Atoms(rows, order)
 
     def get_object(self, name):
         assert name == "atom_site"
@@ -97,7 +117,7 @@ def _seq(a, b):
     return r
 
 
-def h_atom_site(eng, group, marker, charge_marker, has_alt, name_len, comp_len, asym_len, same_chain, has_ins, focus, models):
+def h_atom_site(eng, group, marker, charge_marker, has_alt, name_len, comp_len, asym_len, same_chain, has_ins, focus, models, earlier_file=None):
     from pdb2pqr import cif, pdb
 
     rows, wants = [], []
@@ -114,8 +134,16 @@ def h_atom_site(eng, group, marker, charge_marker, has_alt, name_len, comp_len, 
     eng.derived.update(coord_width=maxw, id_width=idw, seq_width=seqw)
     sh = (builtin_shims(pdb, ("int", "float")) + [(pdb, "str", strs.sym_str_t), (cif, "str", strs.sym_str_t)]) if eng.symbolic else []
     with patched(*sh):
+        if earlier_file:
+            # another mmCIF file was read earlier in this process; its atom_site loop lists the items in another order
+            # (the earlier file has the usual wwPDB order, the checked one the permuted order: whatever other obligation ran
+            # before in this worker process also used the usual order)
+            try:
+                cif.atom_site(_Block([dict(r) for r in rows]))
+            except (ValueError, IndexError, TypeError):
+                pass
         try:
-            recs, errs = cif.atom_site(_Block(rows))
+            recs, errs = cif.atom_site(_Block(rows, order=earlier_file))
         except (ValueError, IndexError, TypeError) as e:
             eng.check(False, "parses", note=f"atom_site raised {type(e).__name__}: {str(e)[:120]}")
             return
@@ -266,6 +294,8 @@ def obligations(tier):
         cases.append(_case(group=group, same_chain=False, focus=["seq"]))
         cases.append(_case(group=group, has_ins=True, focus=["seq"]))
         cases.append(_case(group=group, models=["1", "2"], marker="", focus=["id"]))
+    cases.append(_case(group="ATOM", focus=["seq"], earlier_file="reversed"))
+    cases.append(_case(group="HETATM", focus=["x", "y"], earlier_file="rotated"))
     obs = []
     for c in cases:
         tag = "-".join(f"{k}={'+'.join(map(str, v)) if isinstance(v, list) else v}" for k, v in c.items() if k not in ("charge_marker",))
